@@ -30,9 +30,14 @@ REPLAY_SRC = r'''
 #include <cstdio>
 #include <cmath>
 #include <set>
+#include <csignal>
+#include <unistd.h>
 using namespace vpsc;
+// removeoverlaps ends with COLA_ASSERT(noRectangleOverlaps(rs)); depending on the build that throws or aborts: an abort is a reproduced violation too
+static void on_abort(int) { const char m[] = "REPRODUCED: removeoverlaps aborted on its own closing overlap check\n"; ssize_t u = write(1, m, sizeof(m) - 1); (void)u; _exit(1); }
 int main() {
   int bad = 0;
+  signal(SIGABRT, on_abort);
   // rectangles named as fixed stay put when nothing pushes them: alone, or apart from the others (0, 1, 2 other rectangles)
   for (int others = 0; others <= 2; ++others) for (int third = 0; third < 2; ++third) {
     Rectangles frs; frs.push_back(new Rectangle(90, 110, 40, 50));
@@ -98,6 +103,17 @@ int main() {
     for (int i = 0; i < 6; ++i) for (int j = i + 1; j < 6; ++j)
       if (rs[i]->overlapX(rs[j]) > 1e-6 && rs[i]->overlapY(rs[j]) > 1e-6) { printf("round %d: rectangles %d and %d overlap by %g x %g\n", round, i, j, rs[i]->overlapX(rs[j]), rs[i]->overlapY(rs[j])); bad++; }
     for (int i = 0; i < 6; ++i) delete rs[i];
+  }
+  // a fixed 1000 x 1000 rectangle with a free one of the same size across its corner: the fixed one is pushed a little (it is heavy, not immovable) and the
+  // free one is placed relative to where the solver put it -- the result must be overlap-free
+  for (int third = 0; third < 2; ++third) {
+    Rectangle::setXBorder(0); Rectangle::setYBorder(0);
+    Rectangles rs; rs.push_back(new Rectangle(0, 1000, 0, 1000)); rs.push_back(new Rectangle(500, 1500, 500, 1500));
+    std::set<unsigned> fixed; fixed.insert(0);
+    try { removeoverlaps(rs, fixed, third != 0); }
+    catch (...) { printf("fixed 1000x1000 rectangle with a free one across its corner (thirdPass=%d): removeoverlaps' own closing check failed\n", third); bad++; continue; }
+    if (rs[0]->overlapX(rs[1]) > 1e-6 && rs[0]->overlapY(rs[1]) > 1e-6) {
+      printf("fixed 1000x1000 rectangle with a free one across its corner (thirdPass=%d): still overlapping by %g x %g\n", third, rs[0]->overlapX(rs[1]), rs[0]->overlapY(rs[1])); bad++; }
   }
   // generated y-constraints on a column of three rectangles (A overlaps B, C just clear of B): one separation per
   // neighbouring pair, and the solved placement must be overlap-free
@@ -327,6 +343,39 @@ def jobs(tier):
                   flags=["--sat-solver", "cadical"], backend="sat:cadical",
                   bound="block sets of 0 to 3 blocks (loops unwound 6 times with unwinding assertions); every outcome of findMinLM per block; every value of the function's other locals",
                   domain="every such pass", expect=[r'h_refine_pass\.assertion']))
+    # ---- removeoverlaps: after each solve EVERY rectangle is moved to its variable's final position -- the fixed ones included (they are heavy, not immovable:
+    #      the solver places their neighbours relative to where it put THEM).  The two write-back loops after the x and the y pass, cut out of the function by
+    #      their neighbouring statements; bounded: 0 to 3 rectangles.
+    ro = S["ro"]
+    tpos = ro.text.find("try")
+    tb = ro.text.find("{", tpos)
+    if tpos < 0 or tb < 0:
+        raise Undecided("C09: removeoverlaps has no try block any more")
+    tblock = Slice("removeoverlaps [try block]", ro.rel, ro.text[tb:match_close(ro.text, tb) + 1], ro.line, kind="block")
+    wbx = items_between(tblock, r'^vpsc_x\.solve\(\);', r'^COLA_ASSERT\(r==rs\.end\(\)\);', "removeoverlaps [write-back after the x pass]", allow_loop_break=True)
+    wby = items_between(tblock, r'^vpsc_y\.solve\(\);', r'^Rectangle::setYBorder\(yBorder\);', "removeoverlaps [write-back after the y pass]", allow_loop_break=True)
+    wby_text = subst(wby, [(r'for_each\(cs\.begin\(\),cs\.end\(\),delete_object\(\)\);', '/* constraints released (not part of this obligation) */', 1),
+                           (r'cs\.clear\(\);', '', 1)])
+    mshim = ("    void moveCentreX(double x) { w_moved((void *)this, 0, x); }\n    void moveCentreY(double y) { w_moved((void *)this, 1, y); }\n")
+    wb_cxx = ("#include <set>\n" + base + 'extern "C" { void w_moved(void *r, int dim, double to); void *malloc(size_t); }\n' + c01.EXTERN + vp + rect_pre.replace("@RECT_INLINES@", mshim) +
+              "namespace vpsc {\nusing std::set; using std::vector;\n#define ISNOTNAN(d) (d)==(d)\n"
+              "// the fragments' free variables are removeoverlaps' parameters and locals\n"
+              "static void verif_writeback_x(Rectangles& rs, const set<unsigned>& fixed, bool thirdPass, Variables& vs)\n{ Variables::iterator v;\n" + wbx.text + "\n}\n"
+              "static void verif_writeback_y(Rectangles& rs, const set<unsigned>& fixed, bool thirdPass, Variables& vs)\n{ Variables::iterator v; Rectangles::iterator r;\n" + wby_text + "\n}\n}\n"
+              "static vpsc::Rectangle *verif_rd[3]; static vpsc::Variable *verif_vd[3];\n"
+              'extern "C" int verif_rect_index(void *r) { for (int k = 0; k < 3; ++k) if (r == (void *)verif_rd[k]) return k; return -1; }\n'
+              'extern "C" void w_writeback(int pass, unsigned n, double f0, double f1, double f2, unsigned nfixed, unsigned fx0, unsigned fx1, int thirdPass) {\n'
+              "  double F[3] = {f0, f1, f2}; vpsc::Rectangles rs; vpsc::Variables vs; std::set<unsigned> fixed;\n"
+              "  for (unsigned k = 0; k < 3; ++k) { verif_rd[k] = (vpsc::Rectangle *)malloc(sizeof(vpsc::Rectangle)); verif_vd[k] = (vpsc::Variable *)malloc(sizeof(vpsc::Variable));\n"
+              "    verif_vd[k]->id = (int)k; verif_vd[k]->finalPosition = F[k]; }\n"
+              "  rs._d = verif_rd; rs._n = n; rs._cap = 3; vs._d = verif_vd; vs._n = n; vs._cap = 3;\n"
+              "  if (nfixed > 0) fixed.insert(fx0); if (nfixed > 1) fixed.insert(fx1);\n"
+              "  if (pass == 0) vpsc::verif_writeback_x(rs, fixed, thirdPass != 0, vs); else vpsc::verif_writeback_y(rs, fixed, thirdPass != 0, vs); }\n")
+    js.append(Job("removeoverlaps_writes_back_every_rectangle", "B", spec, "h_writeback", cxx=wb_cxx, defines=["JOB_writeback"], slices=[ro, wbx, wby], stub_variant="bounded_set", unwind=5,
+                  flags=["--sat-solver", "cadical", "--no-malloc-may-fail"], backend="sat:cadical", replay=replay_c09, timeout=600,
+                  bound="0 to 3 rectangles, a fixed set of 0 to 2 ids below 3 (loops unwound 5 times with unwinding assertions)",
+                  domain="both write-back loops (after the x pass and after the y pass), every final position (all doubles but NaN), with and without the third pass",
+                  expect=[r'h_writeback\.assertion']))
     return js
 
 
@@ -345,6 +394,8 @@ ASSUMPTIONS = [
     "fixed rectangles: only the link 'generateX/YConstraints sets EVERY variable's desired position to its rectangle's current centre, in every call' is under contract "
     "(loop shells for any number of rectangles + projected loop bodies); that weight 10000 then keeps a fixed rectangle within 1% is solver optimality (C02) and not decided",
     "refine_pass_examines_every_block is a BOUNDED stand-in (up to 3 blocks; Blocks/Block behind stand-ins): one pass of Solver::refine's outer loop ends 'solved' only after every block was examined; that the optimum then keeps fixed rectangles within 1% is C02 and not decided",
+    "removeoverlaps_writes_back_every_rectangle is a BOUNDED stand-in (0 to 3 rectangles; the two write-back loops after the x and y solves, cut out by their neighbouring statements; moveCentreX/Y behind the harness): "
+    "every rectangle, fixed or not, is moved once to its variable's final position; the third pass's loops (inside `if(thirdPass)`) are not under it",
     "NOT decided (residue, the headline): the scan line emits a constraint or chain for EVERY overlapping pair; acyclicity of the generated sets; hence 'no two rectangles overlap'",
 ]
 EXPLANATION = ("Contracts on the real vpsc::Rectangle inline members and on fragments of generateX/YConstraints and removeoverlaps: moving a rectangle keeps width, height and the other "
